@@ -180,6 +180,57 @@ def pinned_alternatives(ctx: Ctx, sites_per_occurrence, k: int) -> dict:
     return {"evaluations": ev, "distinct": len(hashes), "pinned_items": len(items), "cases_per_item": k, "pairs_reached": len(pairs)}
 
 
+def self_recursive_routes(model) -> List[Tuple[str, List[str]]]:
+    """(structure, route) for every property through which a structure contains itself (directly, or through arrays,
+    maps, unions, aliases): one round of the route nests the structure one level deeper."""
+    out = []
+
+    def walk(t: dict, locus: str, target: str, path: List[str], seen: set) -> None:
+        k = t["kind"]
+        if k == "reference":
+            n = t["name"]
+            if n == target:
+                out.append((target, list(path)))
+            elif n in model.aliases and n not in seen:
+                al = f"alias:{n}"
+                walk(model.aliases[n]["type"], al, target, path + [al], seen | {n})
+        elif k == "array":
+            walk(t["element"], f"{locus}|[]", target, path + [f"{locus}|[]"], seen)
+        elif k == "map":
+            walk(t["value"], f"{locus}|{{}}", target, path + [f"{locus}|{{}}"], seen)
+        elif k in ("or", "tuple"):
+            for i, it in enumerate(t["items"]):
+                walk(it, f"{locus}|{i}", target, path + [f"{locus}|{i}"], seen)
+
+    for name in model.structs:
+        for p in model.flat_props(name):
+            locus = f"struct:{p['_declared_in']}.{p['name']}"
+            walk(p["type"], locus, name, [locus], set())
+    return out
+
+
+def deep_chains(ctx: Ctx, depths: List[int]) -> dict:
+    """"unbounded nesting": every self-recursive position nested d levels deep (far beyond what the free generator builds)."""
+    from .. import tvgen
+    from ..hyp import mini
+    sub = valuecheck.subject()
+    routes = self_recursive_routes(sub.model)
+    n = 0
+    deepest = 0
+    for name, unit in routes:
+        root = ("struct", name)
+        for d in depths:
+            def one(x):
+                nonlocal n, deepest
+                tv, _ = x
+                n += 1
+                deepest = max(deepest, d)
+                for f in body(sub, root, tv):
+                    ctx.finding((f[0], f[1], f"nested-{d}-deep"), f[3], {"root": list(root), "json": erase(tv), "tv": tvgen.to_json(tv), "extra": None})
+            mini(tvgen.value_strategy(sub.objects, root, tvgen.GenCfg(route=unit * d, max_depth=3, max_nodes=150)), 2, (ctx.seed, "C01deep", name, unit[0], d), one)
+    return {"self_recursive_positions": [f"{a}: {' > '.join(u)}" for a, u in routes][:12], "cases": n, "depths": depths}
+
+
 def run(ctx: Ctx) -> None:
     ctx.assumptions = [
         "the reference interpreter of the metamodel (lspverif/refmodel.py) reads lsp.json as the LSP specification intends",
@@ -189,6 +240,9 @@ def run(ctx: Ctx) -> None:
     pin = pinned_alternatives(ctx, 3 if ctx.quick else None, 12 if ctx.quick else 60)
     ctx.coverage["pinned_union_alternatives"] = pin
     ctx.coverage["evaluations"] += pin["evaluations"]
+    deep = deep_chains(ctx, [25, 100] if ctx.quick else [25, 100, 180])
+    ctx.coverage["deep_chains"] = deep
+    ctx.coverage["evaluations"] += deep["cases"]
     if not ctx.quick:
         cg = coverage_guided(ctx, procs=16, runs=30000)
         ctx.coverage["coverage_guided_campaign"] = cg
